@@ -511,6 +511,8 @@ recode_qp(const char *buf, const off_t len)
 				sendbuf[idx++] = '\r';
 				sendbuf[idx++] = '\n';
 				llen = 0;
+				/* a character may have been consumed above: look at the next one from the start */
+				continue;
 			}
 
 			if (!llen && (buf[off + chunk] == '.')) {
